@@ -561,7 +561,7 @@ func VerifC19SkippedDataSuccessor() {
 // when the caller stops reading (at any point), in both trigger modes.
 func VerifC19BranchSelectsNothing() {
 	ctx := context.Background()
-	vcfg("preempt", vtier())
+	vcfg("preempt", 0) // both tiers: the family is about which copies get closed, not about schedules
 	vcfg("selectfirst", 1)
 	K := 2
 	pa := &c19Prod{key: "a", k: K}
@@ -613,7 +613,7 @@ func VerifC19BranchSelectsNothing() {
 // skipped: b's producer is released when the caller reads to the end or stops early.
 func VerifC19BufferedThenSkipped() {
 	ctx := context.Background()
-	vcfg("preempt", vtier())
+	vcfg("preempt", 0) // both tiers: the family is about which copies get closed, not about schedules
 	vcfg("selectfirst", 1)
 	K := 2
 	pb := &c19Prod{key: "b", k: K}
